@@ -347,9 +347,23 @@ func rulesC05(p *Prog, r *Report) {
 				fb := bp.forFn(f)
 				for _, b := range f.Blocks {
 					for _, in := range b.Instrs {
+						if call, ok := in.(*ssa.Call); ok && call.Call.StaticCallee() != nil && p.InModule(call.Call.StaticCallee()) {
+							if ti := bp.transparent(call.Call.StaticCallee()); ti != nil {
+								for _, u := range ti.updates {
+									if u.fk.Struct == T.String() && u.fk.Field == c.F {
+										if d, ok := fb.renameCallee(u.delta, call.Call.StaticCallee(), call, false); ok {
+											checkCursorMoveCall(p, r, fb, call, d, c)
+										}
+									}
+								}
+							}
+						}
 						st, ok := in.(*ssa.Store)
 						if !ok {
 							continue
+						}
+						if ti := bp.transparent(f); ti != nil && len(ti.updates) > 0 {
+							continue // judged at the call sites of this transparent mutator
 						}
 						fa, ok := st.Addr.(*ssa.FieldAddr)
 						if !ok || fieldOf(fa).Struct != T.String() || baseIsLocalAlloc(fa.X, 0) {
@@ -752,6 +766,29 @@ func unwrapThunk(p *Prog, f *ssa.Function) *ssa.Function {
 	return f
 }
 
+// suffixGetter: call is g(recv) on the object whose buffer is being rewritten, and g is a one-block
+// getter returning recv.<buffer>[k:] — a suffix of the old buffer.
+func suffixGetter(p *Prog, call *ssa.Call, fa *ssa.FieldAddr, c invField) bool {
+	g := call.Call.StaticCallee()
+	if g == nil || !p.InModule(g) || len(g.Blocks) != 1 || len(call.Call.Args) == 0 || call.Call.Args[0] != fa.X || len(g.Params) == 0 {
+		return false
+	}
+	ret, ok := g.Blocks[0].Instrs[len(g.Blocks[0].Instrs)-1].(*ssa.Return)
+	if !ok || len(ret.Results) != 1 {
+		return false
+	}
+	sl, ok := ret.Results[0].(*ssa.Slice)
+	if !ok || sl.High != nil {
+		return false
+	}
+	ld, ok := sl.X.(*ssa.UnOp)
+	if !ok || ld.Op != token.MUL {
+		return false
+	}
+	gfa, ok := ld.X.(*ssa.FieldAddr)
+	return ok && gfa.X == ssa.Value(g.Params[0]) && fieldOf(gfa).Field == c.G && fieldOf(gfa).Struct == c.T.String()
+}
+
 // tailOf returns the last operand of a string concatenation chain.
 func tailOf(v ssa.Value) ssa.Value {
 	if bo, ok := v.(*ssa.BinOp); ok && bo.Op == token.ADD && isStringType(bo.Type()) {
@@ -837,7 +874,18 @@ func checkBufferRewrite(p *Prog, r *Report, fb *fnBounds, st *ssa.Store, fa *ssa
 				what = "old[" + describeIdx(t.Low) + ":]"
 			}
 		case *ssa.Call:
+			if suffixGetter(p, t, fa, c) {
+				// a getter of "the unread rest": a suffix of the old buffer, starting len(old) - len(result) in
+				k, okTail = bufLen(t).sub(fb.lenOf(t, t, 0)), true
+				what = t.Call.StaticCallee().Name() + "()"
+			}
 			if callee := t.Call.StaticCallee(); callee != nil && (callee.String() == "strings.TrimPrefix") {
+				if g, ok := t.Call.Args[0].(*ssa.Call); ok && suffixGetter(p, g, fa, c) {
+					if _, isConst := constString(t.Call.Args[1]); isConst {
+						k, okTail = bufLen(g).sub(fb.lenOf(g, g, 0)), true
+						what = "TrimPrefix(" + g.Call.StaticCallee().Name() + "(), const)"
+					}
+				}
 				if sl, ok := t.Call.Args[0].(*ssa.Slice); ok && isOld(sl.X) && sl.High == nil {
 					if _, isConst := constString(t.Call.Args[1]); isConst {
 						if sl.Low == nil {
@@ -875,14 +923,34 @@ func checkBufferRewrite(p *Prog, r *Report, fb *fnBounds, st *ssa.Store, fa *ssa
 func checkCursorMove(p *Prog, r *Report, fb *fnBounds, st *ssa.Store, fa *ssa.FieldAddr, c invField) {
 	f := st.Parent()
 	key := fmt.Sprintf("%s|%s.%s = %s", p.shortKey(f), c.T.Obj().Name(), c.F, describeIdx(st.Val))
-	pos := p.pos(st.Pos())
 	newV, ok := fb.linOf(st.Val, st, 0)
 	if !ok {
-		r.Unknown("G4", key, pos, "kind=undecided: new cursor value is not linear")
+		r.Unknown("G4", key, p.pos(st.Pos()), "kind=undecided: new cursor value is not linear")
 		return
 	}
 	cls := "fld:" + c.T.String() + "." + c.F
 	old := linVar(fmt.Sprintf("mem(%s.%s@%s)", fb.vid(fa.X, st), c.F, fb.versionAt(cls, st)))
+	restore := false
+	if ld, ok := st.Val.(*ssa.UnOp); ok && ld.Op == token.MUL {
+		if fa2, ok := ld.X.(*ssa.FieldAddr); ok && fa2.X == fa.X && fieldOf(fa2).Field == c.F {
+			restore = true
+		}
+	}
+	cursorMoveCore(p, r, fb, f, st, key, old, newV, restore, c)
+}
+
+// checkCursorMoveCall: the same judgement for a call to a transparent mutator (advance(n)): the cursor
+// moves by the renamed delta at the call site.
+func checkCursorMoveCall(p *Prog, r *Report, fb *fnBounds, call *ssa.Call, delta lin, c invField) {
+	f := call.Parent()
+	key := fmt.Sprintf("%s|%s.%s moved by %s(%s)", p.shortKey(f), c.T.Obj().Name(), c.F, call.Call.StaticCallee().Name(), describeIdx(call.Call.Args[len(call.Call.Args)-1]))
+	cls := "fld:" + c.T.String() + "." + c.F
+	old := linVar(fmt.Sprintf("mem(%s.%s@%s)", fb.vid(call.Call.Args[0], call), c.F, fb.versionAt(cls, call)))
+	cursorMoveCore(p, r, fb, f, call, key, old, old.add(delta), false, c)
+}
+
+func cursorMoveCore(p *Prog, r *Report, fb *fnBounds, f *ssa.Function, st ssa.Instruction, key string, old, newV lin, restore bool, c invField) {
+	pos := p.pos(st.Pos())
 	facts := fb.factsBefore(st)
 	// backward or unchanged moves never skip input
 	if g := geq(old, newV, "cursor does not advance"); entails(addLenNonNeg(facts, g), g) {
@@ -890,11 +958,9 @@ func checkCursorMove(p *Prog, r *Report, fb *fnBounds, st *ssa.Store, fa *ssa.Fi
 		return
 	}
 	// restore of a value loaded earlier from the same field
-	if ld, ok := st.Val.(*ssa.UnOp); ok && ld.Op == token.MUL {
-		if fa2, ok := ld.X.(*ssa.FieldAddr); ok && fa2.X == fa.X && fieldOf(fa2).Field == c.F {
-			r.OK("G4", key, pos, "restores a saved cursor", "", true)
-			return
-		}
+	if restore {
+		r.OK("G4", key, pos, "restores a saved cursor", "", true)
+		return
 	}
 	// forward by d: d must be the length of matched text
 	d := newV.sub(old)
